@@ -6,9 +6,9 @@ CONSTANTS
   PNorm <- TokLaw
   PLit <- LitLaw
   PMacro <- MacLaw
-  PLen = 3
+  PLen = 2
   SAlpha <- StrLaw
-  SLen = 3
+  SLen = 2
   CfgSel = "all"
   Kind = "laws"
 INVARIANT Laws
